@@ -212,6 +212,63 @@ def unfold_conventions(prog: Program, res: Result) -> None:
                 " — the product of differently ordered unfoldings is not the mode-n Gram matrix (visible for a middle mode of a tensor with >= 3 modes)")
 
 
+def complement_order(prog: Program, res: Result) -> None:
+    """gather_wrap_dims: the "t" layout (used for the sparse core in ttensor.nvecs) and the cdims-only layout (used for the dense one)
+    must list the remaining modes in the same order; today both are np.setdiff1d (ascending)."""
+    fi = prog.func("pyttb_utils.gather_wrap_dims")
+    desc = 'the "t" layout and the cdims-only layout of gather_wrap_dims list the remaining modes in the same (ascending) order'
+
+    def classify(e: ast.expr, defs, depth=0) -> str:
+        if isinstance(e, ast.Name) and e.id in defs and depth < 3:
+            ks = {classify(d, defs, depth + 1) for d in defs[e.id]}
+            return ks.pop() if len(ks) == 1 else "?"
+        if isinstance(e, ast.Call):
+            base = (dotted(e.func) or "").split(".")[-1]
+            if base in ("setdiff1d", "sort", "sorted", "unique"):
+                return "ascending"
+            if base == "roll":
+                return "cyclic"
+            if base in ("array", "asarray") and e.args:
+                return classify(e.args[0], defs, depth + 1)
+        if isinstance(e, ast.Subscript):
+            k = classify(e.value, defs, depth + 1)
+            if isinstance(e.slice, ast.Slice) and e.slice.step is not None and const(e.slice.step) == -1 and k == "ascending":
+                return "descending"
+            return k
+        if isinstance(e, ast.BinOp) and isinstance(e.op, ast.Add) and isinstance(e.left, ast.ListComp):
+            return "cyclic"
+        return "?"
+    defs = {}
+    for n in ast.walk(fi.node):
+        if isinstance(n, ast.Assign) and len(n.targets) == 1 and isinstance(n.targets[0], ast.Name):
+            defs.setdefault(n.targets[0].id, []).append(n.value)
+    t_def = c_def = None
+    for n in ast.walk(fi.node):
+        if isinstance(n, ast.If):
+            t = ast.unparse(n.test).replace(" ", "").replace('"', "'")
+            if t == "cdims_cyclic=='t'":
+                for st in n.body:
+                    if isinstance(st, ast.Assign) and isinstance(st.targets[0], ast.Name) and st.targets[0].id == "rdims":
+                        t_def = st
+            if t == "rdimsisNoneandcdimsisnotNone":
+                for st in n.body:
+                    if isinstance(st, ast.Assign) and isinstance(st.targets[0], ast.Name) and st.targets[0].id == "rdims":
+                        c_def = st
+    if t_def is None or c_def is None:
+        res.undecided("EIG-unf", fi.short, desc, prog.loc(fi), "layout branches not found")
+        return
+    local = {k: v for k, v in defs.items() if k not in ("rdims", "cdims")}
+    kt, kc = classify(t_def.value, local), classify(c_def.value, local)
+    if kt == kc == "ascending":
+        res.ok("EIG-unf", fi.short, desc, prog.loc(fi, t_def), f"both {ast.unparse(c_def.value)[:40]}")
+    elif "?" in (kt, kc):
+        res.undecided("EIG-unf", fi.short, desc, prog.loc(fi, t_def), f'"t": {kt}; cdims-only: {kc}')
+    else:
+        res.bad("EIG-unf", fi.short, desc, prog.loc(fi, t_def),
+                f'the "t" layout lists the remaining modes {kt} (`{ast.unparse(t_def.value)[:40]}`), the cdims-only layout {kc}: for a Tucker tensor with a '
+                "sparse core the two unfoldings multiplied in nvecs use different row orders for every interior mode")
+
+
 def gram_degree(prog: Program, res: Result) -> None:
     from fractions import Fraction
     from .. import degree as D
@@ -260,8 +317,9 @@ def check(prog: Program, res: Result, tier: str) -> None:
         "eigsh unspecified order, k vectors); eig/eigs are general solvers with complex results",
         "eigsh(which='LM', default) selects largest-magnitude eigenvalues",
     ]
-    res.floors = {"EIG-ret": 8, "EIG-sign": 4, "EIG-sib": 4, "EIG-unf": 1, "EIG-gram": 10}
+    res.floors = {"EIG-ret": 8, "EIG-sign": 4, "EIG-sib": 4, "EIG-unf": 2, "EIG-gram": 10}
     unfold_conventions(prog, res)
+    complement_order(prog, res)
     gram_degree(prog, res)
     for short in NVECS:
         eig_ret(prog, res, short)
